@@ -635,6 +635,42 @@ func checkC16(e *Env, r *Report) {
 		nAcc++
 	}
 	r.Coverage["access_histories"] = nAcc
+	// neighbours: two adjacent records of one profile that differ in one field a rule is built from - both values
+	// must come out (a "repeat" is a record identical up to timestamp and pid, nothing less)
+	{
+		type nb struct {
+			kind, tmpl string
+			a, b       string
+			toks       []string
+		}
+		nbs := []nb{
+			{"unix", `operation="bind" class="net" profile="%[1]s" pid=%[2]d comm="cmd" family="unix" sock_type="stream" protocol=0 requested_mask="bind" denied_mask="bind" addr="%[3]s"`, "@/tmp/.X11-unix/X0", "@/tmp/.X11-unix/X1", []string{"bind", "stream"}},
+			{"unix", `operation="connect" class="net" profile="%[1]s" pid=%[2]d comm="cmd" family="unix" sock_type="stream" protocol=0 requested_mask="send receive" denied_mask="send receive" addr=none peer_addr="%[3]s" peer="peerlabel"`, "@/tmp/peer-a", "@/tmp/peer-b", []string{"send", "peerlabel"}},
+			{"signal", `operation="signal" class="signal" profile="%[1]s" pid=%[2]d comm="cmd" requested_mask="send" denied_mask="send" signal=term peer="%[3]s"`, "peer-one", "peer-two", []string{"send", "term"}},
+			{"ptrace", `operation="ptrace" class="ptrace" profile="%[1]s" pid=%[2]d comm="cmd" requested_mask="read" denied_mask="read" peer="%[3]s"`, "peer-one", "peer-two", []string{"read"}},
+			{"dbus", `operation="dbus_method_call" bus="session" path="/org/vgen/Obj" interface="org.vgen.Iface" member="%[3]s" mask="send" name="org.vgen.Svc" pid=%[2]d label="%[1]s" peer_pid=77 peer_label="peerlabel"`, "DoIt", "DoOther", []string{"send", "session"}},
+			{"dbus", `operation="dbus_method_call" bus="session" path="%[3]s" interface="org.vgen.Iface" member="DoIt" mask="send" name="org.vgen.Svc" pid=%[2]d label="%[1]s" peer_pid=77 peer_label="peerlabel"`, "/org/vgen/ObjA", "/org/vgen/ObjB", []string{"send", "DoIt"}},
+			{"mount", `operation="mount" class="mount" info="failed perms check" error=-13 profile="%[1]s" name="/mnt/point/" pid=%[2]d comm="cmd" fstype="ext4" srcname="%[3]s" flags="rw, nosuid"`, "/dev/sda1", "/dev/sdb1", []string{"ext4", "/mnt/point/"}},
+			{"capability", `operation="capable" class="cap" profile="%[1]s" pid=%[2]d comm="cmd" capability=12 capname="%[3]s"`, "net_admin", "sys_admin", []string{}},
+			{"network", `operation="create" class="net" profile="%[1]s" pid=%[2]d comm="cmd" family="%[3]s" sock_type="dgram" protocol=17 requested_mask="create" denied_mask="create"`, "inet", "inet6", []string{"dgram"}},
+		}
+		for ni, x := range nbs {
+			for order := 0; order < 2; order++ {
+				prof := "nb" + lettersOf(ni*2+order+1)
+				vals := []string{x.a, x.b}
+				if order == 1 {
+					vals = []string{x.b, x.a, x.b}
+				}
+				for k, v := range vals {
+					line := fmt.Sprintf(`type=AVC msg=audit(17400%05d.%03d:%d): apparmor="ALLOWED" `, ni, k, ni*10+k) + fmt.Sprintf(x.tmpl, prof, 8000+ni*10+k, v)
+					want := map[string]any{"kind": x.kind, "qual": "", "mask": []string{}, "ownereligible": false, "tokens": append(append([]string{}, x.toks...), v), "name": "", "profile": prof}
+					batch = append(batch, line)
+					pend = append(pend, pending{want: want, name: "", t: ruleTuple{Cls: x.kind, Mask: v, Verdict: "ALLOWED"}, hist: fmt.Sprintf("neighbours:%s:%d:%d", x.kind, ni, order)})
+				}
+				flush()
+			}
+		}
+	}
 	// rlimit histories: several limits of one resource for one profile (values of different lengths)
 	for hi, vals := range [][]string{{"524288", "8192", "1048576"}, {"8192", "1048576"}, {"70", "9", "100"}, {"infinity", "1024"}} {
 		prof := "rlim" + lettersOf(hi+1)
